@@ -45,7 +45,9 @@ Inductive lcase :=
 (** attributes of the Lifting object after the inserts, compared exactly *)
 | LState (t : list entry) (u1 : Q) (neg : list Q) (ids : list Z) (rp sp : Q) (arec : bool)
 (** two calls of get_active_identifier without reset *)
-| LTwice (s : scheme) (t : list entry) (u1 u2 u2' : Q) (e1 e2 : lres).
+| LTwice (s : scheme) (t : list entry) (u1 u2 u2' : Q) (e1 e2 : lres)
+(** one table, many (scheme, active index, u1, u2, expected) draws; [idonly]: compare identifiers only *)
+| LTable (idonly : bool) (t : utable) (draws : list (scheme * nat * Q * Q * lres)).
 
 Definition check_lcase (c : lcase) : bool :=
   match c with
@@ -60,4 +62,7 @@ Definition check_lcase (c : lcase) : bool :=
       end
   | LTwice s t u1 u2 u2' e1 e2 =>
       let '(r1, r2) := l_run_twice s u1 u2 u2' t in lres_eqb r1 e1 && lres_eqb r2 e2
+  | LTable idonly t draws =>
+      forallb (fun d => let '(s, a, u1, u2, e) := d in
+                        (if idonly then lres_same_id else lres_eqb) (l_run s u1 u2 (activate a t)) e) draws
   end.
